@@ -574,6 +574,9 @@ class ClassParser(BaseParser):
                         context.context = parent
                         context.depth = parent.depth
                         context.routes = list(parent.routes)
+                    else:
+                        # the instance that is initialized is a nesting level itself
+                        context.depth = 1
                     return init_parser.sync_call(
                         (_obj_self, *args),
                         kwargs,
